@@ -19,7 +19,7 @@ def gen(rng: random.Random, tier: str):
                "vec_entities": vents, "vec_form": rng.choice(["numpy", "numpy-F", "arrow", "arrow-null"]), "vec_null": rng.randrange(8),
                "sp_entities": sents, "late": rng.sample([x for x in range(100, 120)], rng.randint(0, 2)) if rng.random() < 0.3 else [],
                "select": rng.sample(ids, rng.randint(0, k)), "dim_names": rng.random() < 0.5,
-               "scalar_dict": rng.random() < 0.3, "list_dict": rng.random() < 0.3}
+               "scalar_dict": rng.random() < 0.3, "list_dict": rng.random() < 0.3, "entity_batches": rng.random() < 0.35}
 
 def _vec(e):      # the dense vector of entity e (entity 7, 17, … get the zero vector)
     return [0.0, 0.0, 0.0] if e % 10 == 7 else [e + 0.5, e * 2.0, -float(e)]
@@ -35,7 +35,11 @@ def run(case: dict, lean: Lean) -> Outcome:
     from lenskit.data import DatasetBuilder
     conv = (lambda x: f"i{x:03d}") if case["str_ids"] else (lambda x: x)
     ids = [conv(x) for x in case["ids"]]; ents = [conv(x) for x in case["entities"]]
-    b = DatasetBuilder(); b.add_entities("item", ids)
+    b = DatasetBuilder()
+    if case.get("entity_batches") and len(ids) >= 2:
+        # the entities arrive in two batches (identifiers in no particular order across them): the table appends, whatever the identifiers' order
+        h = max(1, len(ids) // 2); b.add_entities("item", ids[:h]); b.add_entities("item", ids[h:])
+    else: b.add_entities("item", ids)
     vals = [f"v{e}" for e in case["entities"]]
     lists = [[f"t{e}_{j}" for j in range(m)] for e, m in zip(case["entities"], case["list_lens"])]
     failed = []; keys = []; detail = {}; classes = []
@@ -45,6 +49,7 @@ def run(case: dict, lean: Lean) -> Outcome:
         sd = {"dictionary": True} if case.get("scalar_dict") else {}          # dictionary-encoded storage: same values, another Arrow type
         ld = {"dictionary": True} if case.get("list_dict") else {}
         if sd or ld: classes.append("dictionary-encoded attribute")
+        if case.get("entity_batches"): classes.append("entities registered in two batches")
         if sf == "series": b.add_scalar_attribute("item", "title", pd.Series(vals, index=pd.Index(ents, dtype=object if case["str_ids"] else "int64"), dtype=object), **sd)
         elif sf == "frame": b.add_scalar_attribute("item", "title", pd.DataFrame({"item_id": pd.Series(ents, dtype=object if case["str_ids"] else "int64"), "title": pd.Series(vals, dtype=object)}), **sd)
         else: b.add_scalar_attribute("item", "title", ents, vals, **sd)
